@@ -978,9 +978,10 @@ DEC_RELEVANT = {
     "C10": r"^D[23]\.(\w+_(Encode|String|Decode|GetError|IsEmpty))$|^T[23]\.\w+_String$",
     "C11": r"^D[23]\.(GetVersion|\w+_(GetError|decodeOne|Decode|Encode|IsEmpty))$|^T[23]\.(Get\w+|get|\w+_(IsUnknown|IsValid))$",
     "C12": r"^D[23]\..*",
+    "C14": r"^D[23]\.\w+_(BaseMetrics|TemporalMetrics)(_nil)?$",
 }
 DEC_MODULE = "CvssVerif.Props.SrcDec"
-DEC_THEOREMS = ["v3_functions_are_source", "v2_functions_are_source", "constructors_are_source", "nil_receivers_are_source",
+DEC_THEOREMS = ["v3_functions_are_source", "v2_functions_are_source", "constructors_are_source", "nil_receivers_are_source", "accessors_are_source",
                 "no_index_panic", "v3_env_accepts_iff_source", "v2_accepts_iff_source", "names_abstraction_ok"]
 _DEC_CACHE = {}
 
@@ -1073,7 +1074,9 @@ def run_decoders(prop):
         failed = set(k for k in _split_tab_blocks(gen["decoders"])) | set(k for k in _split_tab_blocks(gen["tables"]) if ".tbl_" not in k)
     # theorems that bundle several functions (String_3, IsEmpty_2, constructors_3, nil_receivers_3): every function of the bundle
     bundle = {"String": ["Base_String", "Temporal_String", "Environmental_String"], "IsEmpty": ["Temporal_IsEmpty", "Environmental_IsEmpty"],
-              "constructors": ["NewBase", "NewTemporal", "NewEnvironmental"], "nil_receivers": ["Base_GetError_nil", "Base_Encode_nil"]}
+              "constructors": ["NewBase", "NewTemporal", "NewEnvironmental"], "nil_receivers": ["Base_GetError_nil", "Base_Encode_nil"],
+              "accessors": ["Base_BaseMetrics", "Temporal_BaseMetrics", "Environmental_BaseMetrics", "Environmental_TemporalMetrics",
+                            "Temporal_BaseMetrics_nil", "Environmental_BaseMetrics_nil", "Environmental_TemporalMetrics_nil"]}
     exp = set()
     for k in failed:
         pre, _, nm = k.partition(".")
